@@ -46,7 +46,7 @@ def evaluate(ctx, configs, res, stream):
         if r.get("crisp") != "1":
             # two segments meet at a shallow angle: they run alongside each other inside the stacking buffer near the
             # contact, which is C10's STACKED window and not a crisp configuration
-            res.skipped["shallow_angle_not_crisp"] = res.skipped.get("shallow_angle_not_crisp", 0) + 1
+            res.skipped["shallow_angle_or_close_crossings_not_crisp"] = res.skipped.get("shallow_angle_or_close_crossings_not_crisp", 0) + 1
             continue
         exp = [[dec(x) for x in t.split(";") if x] for t in r["defects"].split("|")]
         if any(exp):
@@ -99,8 +99,9 @@ def s02_lattice_triples(ctx):
 def s02_polylines(ctx):
     """larger crisp configurations: lattice polylines with planted defects, isolated by construction"""
     rng = random.Random(f"{ctx.seed}:S02p")
-    res = StreamResult("S02-polylines", rule="2..6 random polylines (2..4 vertices) on a 7x7 integer lattice: contacts are exact or >= 0.1 apart (lattice geometry), "
-                       "so the configuration is crisp at threshold 0.001; non-trivial = configuration with a defect")
+    res = StreamResult("S02-polylines", rule="2..6 random polylines (2..4 vertices) on a 7x7 integer lattice: a lattice END is in exact contact with a trace or >= 0.1 away from it; "
+                       "configurations in which two distinct crossing points come within 0.05 of each other (small triangle / junction by proximity) or segments leave a contact "
+                       "at a shallow angle are skipped as not crisp (exact test in the driver); threshold 0.001; non-trivial = configuration with a defect")
     cfgs = []
     pts = [(x, y) for x in range(7) for y in range(7)]
     for _ in range(budget(ctx.tier, 1500, 40000)):
@@ -111,8 +112,7 @@ def s02_polylines(ctx):
             pl = rng.sample(pts, k)
             cfg.append(tuple(pl))
         cfgs.append(tuple(cfg))
-    # crispness filter: exact rational test in the driver would be ideal; lattice geometry guarantees distinct features are
-    # >= 1/(7*sqrt(2)) apart unless in contact, far above 1.1 * 0.001
+    # crispness filter: exact rational test in the driver (Defects.angleCrisp, Defects.contactsApart)
     evaluate(ctx, cfgs, res, "S02-polylines")
     res.samples = [{"traces": [list(p) for p in cfgs[0]]}]
     return res
